@@ -18,7 +18,9 @@ CHECKS = {
              "up / 'connected' + repeated handshake after return, transaction lock, semaphore and in-flight table free, a "
              "fresh send correct, silence ends in an exception or 'no answer' within the documented timeouts in virtual time.",
         note="Loss is modelled as the kernel shows it (os.read raising/returning b'', os.write raising, os.open failing). One "
-             "known finding (LUBA after a cancellation) is listed in known_findings.json.",
+             "known finding per serial driver (LUBA, SCI: a command of the cancelled caller still in progress in the gateway) is "
+             "listed in known_findings.json; the victim is a single send or a sequence, optionally behind another caller's "
+             "command, and the sends that follow start at once or after a pause.",
         tech="runtime monitoring with fault enumeration: fault instants taken from the I/O log of a base run; virtual clock",
         ref="DESIGN.md §4 C17"),
     "C18": dict(
@@ -73,7 +75,7 @@ CHECKS = {
              "scheduling decisions (caller offsets, gateway delays, report coalescing) of 2 / 6 fixed scenarios per driver.",
         note="Gateway models (gateways/sim.py) define what reports a device may send; two known findings about traffic of "
              "another master during an own serial transaction are listed in known_findings.json and identified by a timing "
-             "monitor (foreign report delivered between the command's write and its completion).",
+             "monitor (foreign report delivered between the command's write and its completion). Also: the library's own sequences run through each driver against the unit models and are compared with a direct run (integration shards); a caller abandoning a query; daliserver replies that arrive late, not at all, or split.",
         tech="runtime monitoring: virtual-time simulation with unique answer values per frame; per-caller answer matching",
         ref="DESIGN.md §4 C16"),
     "C19": dict(
@@ -99,7 +101,7 @@ CHECKS = {
              "from the snapshot latched at the start, memory unchanged and bank not left latched afterwards. String fields are "
              "stored in every shape (filled without terminator, early NUL, non-ASCII before / at / after the terminator).",
         note="Trusts models/membank.py (incl. the writeEnableState rule), spec/membank_layout.py decoders. Post-state is "
-             "judged after reads that return.",
+             "judged after reads that return. Also: two sequences on two separate buses advanced in turns (generator instances of the same library function) must behave as when run alone.",
         tech="runtime monitoring: specification-model post-state oracle + fault injection at every command position",
         ref="DESIGN.md §4 C09"),
     "C10": dict(
@@ -114,7 +116,7 @@ CHECKS = {
              "Histories of writes with every option combination (short writes with interior NULs, force_unlock, "
              "ignore_feedback) on one live unit are judged byte-exactly including the lock byte, and first-use shards start "
              "a fresh process whose first write of every value uses given options.",
-        note="Trusts models/membank.py; faults on commands without an answer need not raise.",
+        note="Trusts models/membank.py; faults on commands without an answer need not raise. Also: two sequences on two separate buses advanced in turns (generator instances of the same library function) must behave as when run alone.",
         tech="runtime monitoring with fault enumeration: one fault per (kind, command index) + non-conforming unit models",
         ref="DESIGN.md §4 C10"),
     "C11": dict(
@@ -139,7 +141,7 @@ CHECKS = {
              "addresses and instance numbers. Oracle: exact reassembled value, instance filter/scheme == request and "
              "returned read-back, mapping == enabled instances of healthy devices, quiescent bracket, faults lead to "
              "skip / None / DALISequenceError only.",
-        note="Trusts models/device103.py.",
+        note="Trusts models/device103.py. Also: two sequences on two separate buses advanced in turns (generator instances of the same library function) must behave as when run alone.",
         tech="runtime monitoring: specification-model post-state oracle, fault injection per command",
         ref="DESIGN.md §4 C13"),
     "C14": dict(
@@ -150,7 +152,7 @@ CHECKS = {
              "device-type-enable and send-twice rules; an order monitor over the wire log checks DTR0/DTR1(/DTR2) loads "
              "before the DT8 command and ACTIVATE after it; out-of-range / wrong-type mirek and non-selector query "
              "arguments must raise before the first command.",
-        note="Trusts models/tc209.py and models/gear102.py.",
+        note="Trusts models/tc209.py and models/gear102.py. Also: two sequences on two separate buses advanced in turns (generator instances of the same library function) must behave as when run alone.",
         tech="runtime monitoring: specification-model state oracle + order monitor over yielded frames",
         ref="DESIGN.md §4 C14"),
     "C06": dict(
@@ -177,7 +179,7 @@ CHECKS = {
              "addressed from the permitted set while it lasts, all addresses distinct, non-participants and dry runs "
              "unchanged, ProgramShortAddressFailure for faulty units. 400 buses quick, 20k thorough.",
         note="Trusts models/gear102.py (reading of 102:2014 9.14/11.7) and models/bus.py (driver semantics: send-twice, "
-             "collision => framing error). One known finding is listed in known_findings.json.",
+             "collision => framing error). One known finding is listed in known_findings.json. Also: two sequences on two separate buses advanced in turns (generator instances of the same library function) must behave as when run alone.",
         tech="runtime monitoring: real generator driven against a specification model with an adversarial scheduler; "
              "post-state and command-bound oracles; mechanism monitor inside the model",
         ref="DESIGN.md §4 C07"),
@@ -190,7 +192,7 @@ CHECKS = {
              "repeating for ever. Oracle: exact list/set for conforming streams, DALISequenceError within 300 commands "
              "for silence / framing error / repeated / non-ascending / never-ending, final membership == request and "
              "exactly the necessary changes for short destinations.",
-        note="Trusts the stream classifier (what a conforming unit may answer) and models/gear102.py.",
+        note="Trusts the stream classifier (what a conforming unit may answer) and models/gear102.py. Also: two sequences on two separate buses advanced in turns (generator instances of the same library function) must behave as when run alone.",
         tech="runtime monitoring: exhaustive adversarial answer streams + specification-model post-state oracle",
         ref="DESIGN.md §4 C08"),
     "C12": dict(
